@@ -108,6 +108,8 @@ inductive Slot where
   | tyvals               -- `, T V` zero or more times (the indices of getelementptr); only as the last slot of a row
   | callee               -- the callee of a call: a local `%x` or a global `@f` (argument: `.val`); followed by the argument list only
   | cargs                -- `(T V, T V, …)` (the arguments of a call; argument: `.tyvals`); only as the last slot of a row
+  | kw (ks : List Bytes)     -- exactly one of the keywords `ks`, printed as it stands (an atomic ordering ` seq_cst`, an atomicrmw operation `add `)
+  | okw (ks : List Bytes)    -- nothing or one of the keywords `ks` (the ordering of an atomic load / store); only in front of the final `align` slot
   | flags (ks : List Bytes)  -- any sequence of the keywords `ks`, each followed by a space (`nuw nsw `, `exact `, fast-math flags, `volatile `); in front of a `tyval` slot or of a `ty` slot followed by `, `
   deriving DecidableEq
 
@@ -122,11 +124,13 @@ inductive Arg where
   | align (a : Option Nat)
   | tyvals (ixs : List (Ty × Operand))
   | flags (xs : List Nat)      -- positions in the keyword list of the slot, in the order written
+  | kw (i : Nat)               -- position in the keyword list of the slot
+  | okw (i : Option Nat)
   deriving Inhabited
 
 /-- how the type of the result is obtained (asm newXxxInst: from the types WRITTEN in the defining instruction) -/
 inductive ResKind where
-  | none | first | cmp | loadTy | second | lastTy | elem | firstVec | shuffle | ptrOf | aggElem | gep
+  | none | first | cmp | loadTy | second | lastTy | elem | firstVec | shuffle | ptrOf | aggElem | gep | cmpxchg | pointee
 
 structure Row where
   hasRes : Bool
@@ -146,6 +150,17 @@ def kOverflow : List Bytes := [[110, 117, 119], [110, 115, 119]]          -- nuw
 def kExact : List Bytes := [[101, 120, 97, 99, 116]]                      -- exact
 def kInbounds : List Bytes := [[105, 110, 98, 111, 117, 110, 100, 115]]     -- inbounds
 def kVolatile : List Bytes := [[118, 111, 108, 97, 116, 105, 108, 101]]   -- volatile
+/-- `atomic`, `volatile` (load / store: each at most once, in this order) -/
+def kAtomicVolatile : List Bytes := [[97, 116, 111, 109, 105, 99], [118, 111, 108, 97, 116, 105, 108, 101]]
+/-- `weak`, `volatile` (cmpxchg: each at most once, in this order) -/
+def kWeakVolatile : List Bytes := [[119, 101, 97, 107], [118, 111, 108, 97, 116, 105, 108, 101]]
+/-- the atomic orderings, each behind the space that separates it from what precedes: unordered monotonic acquire release acq_rel seq_cst -/
+def kOrdSp : List Bytes := [[32, 117, 110, 111, 114, 100, 101, 114, 101, 100], [32, 109, 111, 110, 111, 116, 111, 110, 105, 99], [32, 97, 99, 113, 117, 105, 114, 101],
+  [32, 114, 101, 108, 101, 97, 115, 101], [32, 97, 99, 113, 95, 114, 101, 108], [32, 115, 101, 113, 95, 99, 115, 116]]
+/-- the atomicrmw operations in the order of enum.AtomicOp, each followed by a space: add and fadd fmax fmin fsub max min nand or sub umax umin xchg xor -/
+def kRmwOps : List Bytes := [[97, 100, 100, 32], [97, 110, 100, 32], [102, 97, 100, 100, 32], [102, 109, 97, 120, 32], [102, 109, 105, 110, 32], [102, 115, 117, 98, 32],
+  [109, 97, 120, 32], [109, 105, 110, 32], [110, 97, 110, 100, 32], [111, 114, 32], [115, 117, 98, 32], [117, 109, 97, 120, 32], [117, 109, 105, 110, 32],
+  [120, 99, 104, 103, 32], [120, 111, 114, 32]]
 /-- fast-math flags: nnan ninf nsz arcp contract afn reassoc fast -/
 def kFMF : List Bytes := [[110, 110, 97, 110], [110, 105, 110, 102], [110, 115, 122], [97, 114, 99, 112], [99, 111, 110, 116, 114, 97, 99, 116],
   [97, 102, 110], [114, 101, 97, 115, 115, 111, 99], [102, 97, 115, 116]]
@@ -174,8 +189,8 @@ def rows : List Row := [
   ⟨true, [105, 99, 109, 112, 32, 115, 103, 101, 32], .void, [.tyval, .lit sComma, .val], .cmp, false⟩,
   ⟨true, [105, 99, 109, 112, 32, 115, 108, 116, 32], .void, [.tyval, .lit sComma, .val], .cmp, false⟩,
   ⟨true, [105, 99, 109, 112, 32, 115, 108, 101, 32], .void, [.tyval, .lit sComma, .val], .cmp, false⟩,
-  ⟨true, [108, 111, 97, 100, 32], .void, [.flags kVolatile, .ty, .lit sComma, .tyval, .align], .loadTy, false⟩,
-  ⟨false, [115, 116, 111, 114, 101, 32], .void, [.flags kVolatile, .tyval, .lit sComma, .tyval, .align], .none, false⟩,
+  ⟨true, [108, 111, 97, 100, 32], .void, [.flags kAtomicVolatile, .ty, .lit sComma, .tyval, .okw kOrdSp, .align], .loadTy, false⟩,
+  ⟨false, [115, 116, 111, 114, 101, 32], .void, [.flags kAtomicVolatile, .tyval, .lit sComma, .tyval, .okw kOrdSp, .align], .none, false⟩,
   ⟨true, [115, 101, 108, 101, 99, 116, 32], .void, [.tyval, .lit sComma, .tyval, .lit sComma, .tyval], .second, false⟩,
   ⟨false, [114, 101, 116, 32], .void, [.retv], .none, true⟩,
   ⟨false, [98, 114, 32, 108, 97, 98, 101, 108, 32], .void, [.lab], .none, true⟩,
@@ -247,7 +262,11 @@ def rows : List Row := [
   ⟨true, [108, 97, 110, 100, 105, 110, 103, 112, 97, 100, 32], .void, [.ty], .loadTy, false⟩,
   -- 86: resume; 87: va_arg
   ⟨false, [114, 101, 115, 117, 109, 101, 32], .void, [.tyval], .none, true⟩,
-  ⟨true, [118, 97, 95, 97, 114, 103, 32], .void, [.tyval, .lit sComma, .ty], .lastTy, false⟩
+  ⟨true, [118, 97, 95, 97, 114, 103, 32], .void, [.tyval, .lit sComma, .ty], .lastTy, false⟩,
+  -- 88: fence (the ordering keyword carries its leading space); 89: cmpxchg; 90: atomicrmw
+  ⟨false, [102, 101, 110, 99, 101], .void, [.kw kOrdSp], .none, false⟩,
+  ⟨true, [99, 109, 112, 120, 99, 104, 103, 32], .void, [.flags kWeakVolatile, .tyval, .lit sComma, .tyval, .lit sComma, .tyval, .kw kOrdSp, .kw kOrdSp, .align], .cmpxchg, false⟩,
+  ⟨true, [97, 116, 111, 109, 105, 99, 114, 109, 119, 32], .void, [.flags kVolatile, .kw kRmwOps, .tyval, .lit sComma, .tyval, .kw kOrdSp, .align], .pointee, false⟩
 ]
 
 /-- the row of `switch` -/
@@ -305,6 +324,9 @@ def printSlots (useHex : Int → Bool) : Ty → List Slot → List Arg → Bytes
   | cur, .callee :: fs, .val o :: as => operandString useHex calleeTy o ++ printSlots useHex cur fs as
   | cur, .cargs :: fs, .tyvals ixs :: as => cargsString useHex ixs ++ printSlots useHex cur fs as
   | cur, .flags ks :: fs, .flags xs :: as => flagsString ks xs ++ printSlots useHex cur fs as
+  | cur, .kw ks :: fs, .kw i :: as => ks.getD i [] ++ printSlots useHex cur fs as
+  | cur, .okw _ :: fs, .okw none :: as => printSlots useHex cur fs as
+  | cur, .okw ks :: fs, .okw (some i) :: as => ks.getD i [] ++ printSlots useHex cur fs as
   | _, _, _ => []
 
 /-- `[ V, %b ]` groups separated by `, ` -/
@@ -388,6 +410,14 @@ def findFlag : Nat → List Bytes → Bytes → Option (Nat × Bytes)
     match TyParse.stripPrefix (k ++ [32]) s with
     | some r => some (i, r)
     | none => findFlag (i + 1) ks s
+
+/-- the first keyword of the list that the text starts with -/
+def findKw : Nat → List Bytes → Bytes → Option (Nat × Bytes)
+  | _, [], _ => none
+  | i, k :: ks, s =>
+    match TyParse.stripPrefix k s with
+    | some r => some (i, r)
+    | none => findKw (i + 1) ks s
 
 /-- keywords of the list as long as there are any -/
 def readFlags : Nat → List Bytes → Bytes → List Nat × Bytes
@@ -474,6 +504,23 @@ def readSlots : Ty → List Slot → Bytes → Option (List Arg × Bytes)
     (match readSlots cur fs r with
      | some (as, r') => some (.flags xs :: as, r')
      | none => none)
+  | cur, .kw ks :: fs, s =>
+    (match findKw 0 ks s with
+     | some (i, r) =>
+       (match readSlots cur fs r with
+        | some (as, r') => some (.kw i :: as, r')
+        | none => none)
+     | none => none)
+  | cur, .okw ks :: fs, s =>
+    (match findKw 0 ks s with
+     | some (i, r) =>
+       (match readSlots cur fs r with
+        | some (as, r') => some (.okw (some i) :: as, r')
+        | none => none)
+     | none =>
+       (match readSlots cur fs s with
+        | some (as, r') => some (.okw none :: as, r')
+        | none => none))
   | cur, .align :: fs, s =>
     (match readAlign s with
      | some a =>
@@ -820,6 +867,8 @@ def argUses : Arg → List Ident
   | .align _ => []
   | .tyvals ixs => ixs.flatMap fun p => operandUses p.2
   | .flags _ => []
+  | .kw _ => []
+  | .okw _ => []
 
 /-- the locals (values and blocks) an instruction refers to -/
 def extLabs : Ext → List Ident
@@ -930,6 +979,10 @@ def defTy (i : Inst) : Option Ty :=
     | .gep => (match firstTy i.args, firstTyval i.args with
       | some e, some src => (match Gep.gepAsm (fun _ => none) e src ((tyvalsOf i.args).map idxArg) with | .ok t => some t | _ => none)
       | _, _ => none)
+    -- asm/inst_memory.go newCmpXchgInst: `{ T, i1 }` with T the type written in front of the NEW value (the third operand)
+    | .cmpxchg => (thirdTyval i.args).map fun t => .struct false (.cons t (.cons (.int 1) .nil))
+    -- newAtomicRMWInst: the pointee of the type written in front of the destination (the parser panics when that is not a pointer type)
+    | .pointee => (match firstTyval i.args with | some (.ptr e _) => some e | _ => none)
 
 def env (f : Func) : List (Ident × Ty) :=
   f.params.map (fun p => (p.2, p.1)) ++
@@ -1034,14 +1087,34 @@ def flagsOf (i : Inst) : List Nat :=
   | _ => []
 
 /-- rows whose flag is a single optional keyword in the grammar (`exact`, `volatile`: a boolean field of the instruction): a repeated keyword is a syntax error -/
-def boolFlagRows : List Nat := [3, 4, 8, 9, 23, 24, 73]
+def boolFlagRows : List Nat := [3, 4, 8, 9, 73, 90]
+
+/-- rows whose flag keywords are optional keywords of the grammar in a FIXED order (`atomic` before `volatile`, `weak` before `volatile`): the positions
+    written are strictly ascending -/
+def ascFlagRows : List Nat := [23, 24, 89]
+
+def strictAsc : List Nat → Bool
+  | [] => true
+  | [_] => true
+  | a :: b :: r => decide (a < b) && strictAsc (b :: r)
+
+/-- the optional ordering keyword of a load / store -/
+def okwOf (i : Inst) : Option (Option Nat) :=
+  i.args.findSome? fun a => match a with | .okw o => some o | _ => none
+
+/-- load / store: `atomic` is written exactly when an ordering is (the two productions of the grammar) -/
+def atomicOK (i : Inst) : Bool :=
+  match okwOf i with
+  | some o => (flagsOf i).contains 0 == o.isSome
+  | none => true
 
 def typed (f : Func) : Bool :=
   f.blocks.all fun b => (instsOf b).all fun i =>
     (match rows[i.row]? with
      | some r => !r.hasRes || (defTy i).isSome
      | none => true) &&
-    (!boolFlagRows.contains i.row || (flagsOf i).length ≤ 1)
+    (!boolFlagRows.contains i.row || (flagsOf i).length ≤ 1) &&
+    (!ascFlagRows.contains i.row || strictAsc (flagsOf i)) && atomicOK i
 
 /-- the call rows: `call void` / `call T`, plain and with a tail-call marker -/
 def callRows : List Nat := [74, 75, 76, 77, 78, 79, 80, 81, 83, 84]
@@ -1116,6 +1189,8 @@ def argOKB : Arg → Bool
   | .align a => (match a with | some n => decide (n < 2 ^ 63) | none => true)
   | .tyvals ixs => ixs.all fun p => operandOKB p.2
   | .flags _ => true
+  | .kw _ => true
+  | .okw _ => true
 
 /-- the type after a flag list does not start with one of its keywords (no type does; decidable instance by instance) -/
 def flagTyOK (ks : List Bytes) (t : Ty) : Bool :=
@@ -1141,6 +1216,9 @@ def matchesB : List Slot → List Arg → Bool
   | .cargs :: fs, .tyvals _ :: as => matchesB fs as
   | .flags ks :: .tyval :: fs, .flags xs :: .tyval t _ :: as => xs.all (fun i => decide (i < ks.length)) && flagTyOK ks t && matchesB fs as
   | .flags ks :: .ty :: fs, .flags xs :: .ty t :: as => xs.all (fun i => decide (i < ks.length)) && flagTyCommaOK ks t && matchesB fs as
+  | .flags ks :: .kw ks2 :: fs, .flags xs :: .kw i :: as => xs.all (fun i => decide (i < ks.length)) && decide (i < ks2.length) && matchesB fs as
+  | .kw ks :: fs, .kw i :: as => decide (i < ks.length) && matchesB fs as
+  | .okw ks :: fs, .okw o :: as => (match o with | some i => decide (i < ks.length) | none => true) && matchesB fs as
   | _, _ => false
 
 def sVoidSp : Bytes := [118, 111, 105, 100, 32]        -- "void "
